@@ -217,3 +217,10 @@ Theorem C04_counter_factory :
          Some [[49]; [50]; [49]; [51]; [50]].
 Proof. exact (@counter_factory). Qed.
 Print Assumptions C04_counter_factory.
+
+(** a closure declared below the scope whose variable it captures (loop body / branch inside a block), leaving through an array or an outer variable, called inside and after later blocks with variables of the same names, still owns the first block's variables and nothing else - evaluated inside the kernel from source text (transcript = the real interpreter's) *)
+Theorem C04_escaping_closure_below_block :
+  printed (run_source libm_d (f_of_bits 0) sched_d 400 false escaping_closure_src []) =
+         Some [[49; 49]; [52; 48]; [50]; [49; 50]].
+Proof. exact (@escaping_closure_below_block). Qed.
+Print Assumptions C04_escaping_closure_below_block.
